@@ -1276,3 +1276,27 @@ func (w *World) contractNameOf(real string) string {
 	}
 	return real
 }
+
+// instantiateIntFactsAt assumes, for every quantified fact on the path with a single integer binder, its instance at
+// t (sound: an instance of an assumed fact, under that fact's own guard).
+func (w *World) instantiateIntFactsAt(t Term) {
+	isInt := func(b Binder) bool {
+		return (b.Type.Name == "int" || b.Type.Name == "Int") && b.Type.Ptr == 0 && b.Type.Pkg == "" && !b.Type.Slice && b.Type.Raw == ""
+	}
+	for _, qf := range w.quantFacts {
+		if len(qf.expr.Binders) != 1 || !isInt(qf.expr.Binders[0]) {
+			continue
+		}
+		func() {
+			defer func() {
+				if r := recover(); r != nil {
+					if _, ok := r.(unsupportedErr); !ok {
+						panic(r)
+					}
+				}
+			}()
+			env2 := qf.env.assuming().with(qf.expr.Binders[0].Name, &Val{T: t, Typ: types.Typ[types.Int]})
+			w.sc.assume(implies(qf.guard, w.evalBool(env2, qf.expr.Args[0])))
+		}()
+	}
+}
